@@ -1129,7 +1129,7 @@ func corr(e *env, seed uint64, n int, big int) {
 		ssps, class := protectRangesHevc(spsM, ppsM, sample, sch)
 		emit("H", next(), hexCsv(spsRaw), hexCsv(ppsRaw), sch, hx.Hex(sample), obsRanges(ssps, class))
 	}
-	// --- R: malformed samples (cenc; no 32-bit wrap of pos+naluLength, which can hang the Go loop)
+	// --- R: malformed samples (cenc)
 	for i := 0; i < n/2; i++ {
 		codec := byte(r.Pick('a', 'h'))
 		nalus := genVideoSampleCenc(r, codec, 0)
@@ -1154,13 +1154,23 @@ func corr(e *env, seed uint64, n int, big int) {
 			}
 		case 4: // tiny
 			sample = r.Bytes(r.Intn(9), []byte{0, 0, 1, 5, 0x65})
-		case 5: // 32-bit wrap on a VIDEO NALU (Go: slice bounds panic); never on a non-video one
+		case 5: // 32-bit wrap on a VIDEO NALU (refused since /repo 2ef93b3; the whole family: wrap.go)
 			if len(sample) >= 5 && isVideo(codec, sample[4]) {
 				binary.BigEndian.PutUint32(sample[0:4], uint32(0x100000000-4+uint64(r.Intn(len(sample)-3))))
 			}
 		}
 		sample = hx.Exact(sample)
 		ssps, class := e.protectRanges(codec, sample, "cenc")
+		emit("R", next(), string(codec), "cenc", hx.Hex(sample), "-", obsRanges(ssps, class))
+	}
+	// --- R: NAL unit length fields whose uint32 sum with the position wraps (wrap.go; own RNG stream; the calls run
+	//        under a wall-clock budget, outcome class "hang")
+	rw := hx.NewRng(seed ^ 0x3a9c07)
+	for i := 0; i < n/4+5; i++ {
+		codec := byte(rw.Pick('a', 'h'))
+		sample, _ := wrapSample(rw, codec)
+		sample = hx.Exact(sample)
+		ssps, class := e.protectRangesTimed(codec, sample, "cenc")
 		emit("R", next(), string(codec), "cenc", hx.Hex(sample), "-", obsRanges(ssps, class))
 	}
 	// --- C: CryptSampleCenc on arbitrary maps (incl. maps exceeding the sample: panic class), IV carries
@@ -1807,6 +1817,8 @@ func search(e *env, seed uint64, n int, big int) {
 		checkFragment(e, fr, prefix, codec, scheme, key, ivIn, samples, naluLists, hdrLists, wit)
 	}
 	searchDirect(hx.NewRng(seed^0xd17ec7), n)
+	searchWrap(e, hx.NewRng(seed^0x3a9c08), n/10+20)
+	fmt.Fprintf(out, "NOTE\tsamples_with_length_field_near_2^32\t%v (kinds: non-video wrap, video wrap, wrap back into a protected NAL unit, exact-end controls, extreme values)\n", wrapKinds)
 	fmt.Fprintf(out, "NOTE\tmulti_fragment_prefixes\t%d\n", multiFrag)
 	fmt.Fprintf(out, "NOTE\tsamples_with_shape_oracle\t%d\n", maskChecked)
 	fmt.Fprintf(out, "NOTE\tsynthetic_hevc_fragments\t%d\n", synthFrags)
